@@ -7,8 +7,8 @@ import XdocModel.Dynamic
 
 Trees travel as a `;`-joined list of tokens (each token a codec string) in prefix order:
 `tree := stmt* "E"`, `stmt := "F" async name decos doc tree | "C" name decos doc tree |
-"I" isCompare op0Eq optstr optstr runsThen runsElse tree tree | "B" runs tree | "M" name | "O"`,
-`decos := n (kind value)^n` (`kind`: N name, A attribute, X other), `doc := "0" | "1" text endline`,
+"I" isCompare op0Eq optstr optstr optstr optstr runsThen runsElse tree tree | "B" runs tree | "M" name | "O"`,
+`decos := n (kind value)^n` (`kind`: N name, A attribute, X other), `doc := "0" | "1" text endline startline`,
 `optstr := "0" | "1" text`. -/
 namespace Xdoc.Driver
 open Xdoc Py Static Google Core Dynamic
@@ -33,7 +33,7 @@ def parseDoc : Toks → Option (Option Doc × Toks)
   | f :: r =>
     if tokIs f "0" then some (none, r) else
     match r with
-    | text :: e :: r' => some (some ⟨text, tokNat e⟩, r')
+    | text :: e :: st :: r' => some (some ⟨text, tokNat e, tokNat st⟩, r')
     | _ => none
   | [] => none
 
@@ -71,13 +71,16 @@ partial def parseTree : Toks → Option (Tree × Toks)
       match r with
       | ic :: oe :: r1 => do
         let (l, r2) ← parseOptStr r1
-        let (c, r3) ← parseOptStr r2
+        let (c, r2b) ← parseOptStr r2
+        let (ls, r2c) ← parseOptStr r2b
+        let (ci, r3) ← parseOptStr r2c
         match r3 with
         | r1f :: r2f :: r4 =>
           let (body, r5) ← parseTree r4
           let (orelse, r6) ← parseTree r5
           let (next, r7) ← parseTree r6
-          pure (.ifs ⟨tokBool ic, tokBool oe, l, c⟩ (tokBool r1f) (tokBool r2f) body orelse next, r7)
+          pure (.ifs { isCompare := tokBool ic, op0Eq := tokBool oe, leftId := l, comp0 := c, leftStr := ls, comp0Id := ci }
+                  (tokBool r1f) (tokBool r2f) body orelse next, r7)
         | _ => none
       | _ => none
     else if tokIs t "B" then
